@@ -198,7 +198,7 @@ func runC20(c *Ctx) {
 				return
 			}
 			for _, call := range core.Calls(fn) {
-				find(call.Common.StaticCallee(), depth+1)
+				find(core.Callee(call.Common), depth+1)
 			}
 		}
 		find(top, 0)
